@@ -103,7 +103,11 @@ def build(engine, log, clock):
 
         def stop_self(i, c, e, a):
             log.append((clock(), "act", "stop_self", i.id))
+            kids = list(i._actors.values())
             i.stop()
+            # census taken INSIDE the action, the moment stop() has returned
+            log.append((clock(), "census-in-action", [k.id for k in kids if k.status != "stopped"],
+                        dict(observe.live_timers(i))))
     n = {"k": 0}
 
     def spawn_params(a):
@@ -308,6 +312,71 @@ def run_async(res, script, idx):
     finish(res, J, idx)
 
 
+def run_async_cancelled_start(res, idx, cancel_at_ms, how):
+    """start() is cancelled (task.cancel() / wait_for timeout) while an entry action of the initial
+    state is still awaiting, after the root has already armed a service and a timer.  Whatever
+    status that leaves, stop() afterwards must release everything."""
+    script = ["start-cancelled@%d/%s" % (cancel_at_ms, how), "stop"]
+    J = Judge(res, "async", script)
+    writes = []
+    sw = observe.install_status_watch()
+    sw.sink = status_sink(writes, J.seen)
+
+    async def body():
+        del PENDING_STOPS[:]
+        loop = asyncio.get_event_loop()
+        log = []
+
+        async def hb(i, c, e):
+            while True:
+                await asyncio.sleep(0.007)
+                log.append((loop.time(), "act", "heartbeat", i.id))
+
+        async def boot(i, c, e, a):
+            await asyncio.sleep(0.02)
+            log.append((loop.time(), "act", "booted", i.id))
+        cfg = {"id": "m", "initial": "boot", "invoke": {"id": "hb", "src": "hb", "onError": {}},
+               "after": {"9": {"actions": ["rtick"]}},
+               "states": {"boot": {"entry": ["boot"], "after": {"5": {"actions": ["btick"]}}}}}
+        mk = lambda n: (lambda i, c, e, a: log.append((loop.time(), "act", n, i.id)))  # noqa: E731
+        machine = create_machine(cfg, logic=MachineLogic(
+            actions={"boot": boot, "rtick": mk("rtick"), "btick": mk("btick")}, services={"hb": hb}))
+        it = Interpreter(machine)
+        base_tasks = set(asyncio.all_tasks())
+        if how == "cancel":
+            task = asyncio.ensure_future(it.start())
+            await asyncio.sleep(cancel_at_ms / 1e3)
+            task.cancel()
+            try:
+                await task
+            except asyncio.CancelledError:
+                pass
+            except Exception as x:  # noqa: BLE001
+                J.v("C14:cancelled-start-raised-%s" % type(x).__name__, repr(x))
+        else:
+            try:
+                await asyncio.wait_for(it.start(), cancel_at_ms / 1e3)
+            except asyncio.TimeoutError:
+                pass
+            except Exception as x:  # noqa: BLE001
+                J.v("C14:cancelled-start-raised-%s" % type(x).__name__, repr(x))
+        J.interesting = True
+        res.count("cancelled-start.status-afterwards." + str(it.status))
+        try:
+            await it.stop()
+        except Exception as x:  # noqa: BLE001
+            J.v("C14:stop-raised-%s/after-cancelled-start" % type(x).__name__, repr(x))
+        if it.status not in ("stopped", "uninitialized"):
+            J.v("C14:status-after-stop-is-%s" % it.status, "stop() after a cancelled start() left %s" % it.status)
+        await census_async(J, it, log, base_tasks, loop)
+    try:
+        run_virtual(body)
+    finally:
+        sw.sink = None
+    check_writes(J, writes, {})
+    finish(res, J, idx)
+
+
 async def census_async(J, it, log, base_tasks, loop):
     J.res.count("census.after-stop")
     await settle_stops()
@@ -351,6 +420,7 @@ def run_sync(res, script, idx):
     machine = build("sync", log, lambda: time.monotonic() - t0)
     it = SyncInterpreter(machine)
     all_kids = []
+    scanned = 0
     try:
         for op in script:
             before = fp(it, log)
@@ -418,6 +488,14 @@ def run_sync(res, script, idx):
                     J.v("C14:status-after-stop-is-%s" % it.status, "stop() left status %s" % it.status)
                 if it.status == "stopped":
                     census_sync(J, it, log, all_kids)
+            for r in log[scanned:]:
+                if len(r) > 1 and r[1] == "census-in-action":
+                    J.res.count("census.inside-stopping-action")
+                    if r[2] or any(r[3].values()):
+                        J.v("C14:stop-called-from-action-returned-with-live-resources",
+                            "right after stop() returned inside an action: children not stopped %s, live "
+                            "timers %s" % (r[2][:2], {k: v for k, v in r[3].items() if v}))
+            scanned = len(log)
             if J.bad:
                 break
     finally:
@@ -487,13 +565,21 @@ def run_chunk(spec):
         idx = base + 50000 + j
         wd.arm("sync %d" % idx)
         run_sync(res, gen_script(rng_for(spec["seed"], ID, ci, idx, "s")), idx)
+    k = 0
+    for at in (1, 4, 6, 8, 10, 12, 15, 19):
+        for how in ("cancel", "wait_for"):
+            if k % NCHUNKS == ci:
+                wd.arm("cancelled start %d %s" % (at, how))
+                run_async_cancelled_start(res, base + 90000 + k, at, how)
+            k += 1
     wd.disarm()
     return res.to_json()
 
 
 def quota(counters, tier):
     out = []
-    for k in ("histories.async", "histories.sync", "status-writes.checked", "census.after-stop"):
+    for k in ("histories.async", "histories.sync", "status-writes.checked", "census.after-stop",
+              "census.inside-stopping-action", "census.interpreters-checked"):
         if counters.get(k, 0) == 0:
             out.append("monitor-never-reached:" + k)
     return out
